@@ -511,17 +511,33 @@ def c18_failures(rec, obs, names):
                 out.append(('more-rebuilds-than-unbatched',
                             {'pipeline': which, 'table': c, 'optimised': n,
                              'individually': tot_ref.get(c, 0)}))
-        # a run of mergeable changes on one model: a single rebuild
-        kinds_ok = all(
-            mu['k'] in ('Add', 'Del', 'Meta') or
-            (mu['k'] == 'Chg' and mu['ftype'] == NONE and
-             'db_column' not in as_dict(mu['attrs']))
-            for mu in seq)
-        one_model = len(set(mu['m'] for mu in seq)) == 1
-        m2m = any(mu['k'] == 'Add' and mu['ftype'] == 'M2M' for mu in seq)
-        if seq and kinds_ok and one_model and not m2m and sum(rb.values()) > 1:
-            out.append(('mergeable-run-rebuilt-twice',
-                        {'pipeline': which, 'rebuilds': rb}))
+        # every maximal run of consecutive mergeable changes on one model (as the sequence is
+        # written): a single rebuild of its table; a change that is not mergeable (type change,
+        # column rename through ChangeField) may cost one more
+        def mergeable(mu):
+            return mu['k'] in ('Add', 'Del', 'Meta') or (
+                mu['k'] == 'Chg' and mu['ftype'] == NONE and 'db_column' not in as_dict(mu['attrs']))
+        bound = {}
+        prev_model = None
+        tables = dict((mn, names.table('t_' + mn)) for mn in ('A', 'B', 'C'))
+        for mu in seq:
+            if mu['k'] == 'RenM':
+                tables[mu['nm']] = names.table(mu['dbtable']) if str(mu['dbtable']).startswith('t_') else mu['dbtable']
+                prev_model = None
+                continue
+            t = tables.get(mu['m'])
+            if mergeable(mu):
+                if mu['m'] != prev_model and t:
+                    bound[find(t)] = bound.get(find(t), 0) + 1
+                prev_model = mu['m']
+            else:
+                if mu['k'] == 'Chg' and t:
+                    bound[find(t)] = bound.get(find(t), 0) + 1
+                prev_model = None
+        for c, n in tot_opt.items():
+            if n > bound.get(c, 0) and n > 0 and bound.get(c, 0) > 0:
+                out.append(('mergeable-run-rebuilt-twice',
+                            {'pipeline': which, 'table': c, 'rebuilds': n, 'runs': bound.get(c, 0)}))
     return out
 
 
